@@ -55,6 +55,11 @@ func Mermaid(spec *Spec, w io.WriteCloser, opts *MermaidOpts, fromNode, toNode s
 	// Use copies of states that don't have Name set.
 	nodes := make(map[string]*Node, len(spec.Nodes))
 	for name, n := range spec.Nodes {
+		if n == nil {
+			// "done:" with nothing under it.  (Compile
+			// would replace it like this.)
+			n = &Node{}
+		}
 		nodes[name] = n
 	}
 
